@@ -47,6 +47,17 @@ def build_oracle(ctx):
     return exe
 
 
+def entry_phi_viols(il):
+    """VIOL lines for phis in the first block of a function (the block control enters without evaluating phis)"""
+    out = []
+    for m in re.finditer(r'^(?:[^\n#]*\s)?function [^\n]*?\$([\w.]+)\([^\n]*\{\n(@[^\n]*)\n((?:[ \t][^\n]*\n)*)', il, re.M):
+        for l in m.group(3).split('\n'):
+            pm = re.match(r'\s*(%[\w.]+) =\w+ phi\b', l)
+            if pm:
+                out.append('VIOL rule=3 kind=entry-phi fn=$%s blk=%s idx=-1 aux=%s :: %s' % (m.group(1), m.group(2).strip(), pm.group(1), l.strip()))
+    return out
+
+
 def oracle_check(exe, files):
     """run `oracle check` on a batch; returns {file: dict(ok, parse, roundtrip, viols, data, types)}"""
     # the extracted checker recurses over instruction lists: give it the whole stack limit, not the 8 MB default
@@ -74,6 +85,19 @@ def oracle_check(exe, files):
             p = l.split(' ')
             cur['types'][p[1]] = (int(p[2]), int(p[3]))
     for f, c in res.items():
+        # rule VEntryPhi (no phi in the first block of a function) is part of wf_module; the same condition read off
+        # the text must agree with it (cross-check of parser + checker): a hit the checker missed fails the module
+        if c['ok'] or c['viols']:
+            try:
+                ev = entry_phi_viols(open(f, errors='replace').read())
+            except OSError:
+                ev = []
+            seen = set(re.findall(r'kind=entry-phi fn=(\S+) blk=\S+ idx=-1 aux=(\S+)', '\n'.join(c['viols'])))
+            miss = [l.replace('kind=entry-phi', 'kind=entry-phi-unreported') for l in ev
+                    if re.search(r'fn=(\S+) blk=\S+ idx=-1 aux=(\S+)', l).groups() not in seen]
+            if miss:
+                c['ok'] = False
+                c['viols'].extend(miss)
         if not c['ok'] and not c['parse'] and not c['viols'] and not c['roundtrip']:
             c['parse'] = 'PARSE 0: the checker died on this module (rc=%d) %s' % (rc, txt(err)[-300:])
     missing = [f for f in files if f not in res]
@@ -303,6 +327,8 @@ class Work:
             kinds = viol_kinds(v)
             d22 = is_d22(il, v)
             key = D22_KEY if d22 else FLOAT_BITWISE_KEY if is_float_bitwise(v) else 'wf:' + '+'.join(kinds)
+            if GOTO_VLA_MARK in text and kinds == ['not-dominated']:
+                key = GOTO_VLA_KEY
             what = 'status 0 but the IL module is rejected by wf_module: %s [%s, -t %s]' % (v['viols'][0], label, target)
             pred = lambda vv: bool(vv['viols']) and viol_kinds(vv) == kinds
         # shrink (sources given by path may include other files: shrink only self-contained text)
@@ -600,6 +626,8 @@ def run(ctx):
                 k = VARARG0_KEY if is_vararg0(r['il'], v) else 'il-grammar'
             elif v['viols']:
                 k = D22_KEY if is_d22(r['il'], v) else FLOAT_BITWISE_KEY if is_float_bitwise(v) else 'wf:' + '+'.join(viol_kinds(v))
+                if GOTO_VLA_MARK in w.source_of(r) and viol_kinds(v) == ['not-dominated']:
+                    k = GOTO_VLA_KEY
             else:
                 k = 'roundtrip'
             seen_keys[k] = seen_keys.get(k, 0) + 1
@@ -609,7 +637,7 @@ def run(ctx):
         stats['failed_modules_by_class'] = seen_keys
         w.stats['known_d22'] = seen_keys.get(D22_KEY, 0)
         ctx.ob('TV:%d modules with status 0 all accepted by wf_module (parse + rules 2-8)' % w.stats['status0'],
-               not [x for x in ctx.violations if x['key'] not in (D22_KEY, FLOAT_BITWISE_KEY, VARARG0_KEY)] and w.stats['parse_bad'] == seen_keys.get(VARARG0_KEY, 0))
+               not [x for x in ctx.violations if x['key'] not in (D22_KEY, FLOAT_BITWISE_KEY, VARARG0_KEY, GOTO_VLA_KEY)] and w.stats['parse_bad'] == seen_keys.get(VARARG0_KEY, 0))
         ctx.ob('K:ilparse print-after-parse self check on every module', w.stats['roundtrip_bad'] == 0)
 
         # ---- output-failure half
@@ -662,8 +690,9 @@ def run(ctx):
                    'Model/Qbe.v is the definition of the IL semantics (no qbe binary in the sandbox)',
                    'gcc 12 / clang 14 as reference executions and for sizeof/_Alignof of the C objects (rule 9)'])
     return ctx.finish(cov, assumptions=[
-        'wf_module is proved sound w.r.t. Qbe.run for labels, terminators and unique definitions (C03_wf_labels_sound, C03_wf_terminated_sound, C03_wf_defs_unique); '
-        'the dominance and class parts are executable rules validated by tests only (wf_sound_statement is stated, not proved)',
+        'wf_module is proved sound w.r.t. Qbe.run (C03_wf_sound): an accepted module never stops at an undefined register, a missing label, '
+        'a wrong class, a missing aggregate type or a fall off the end, for all float operations, externals, entries and fuel; '
+        'other Stuck results (BadCall, BadPhi, DivTrap, BadVa, ...) and OOB are outside the statement',
         'qbe.c is tied to the Builder model by the translation validation above, not by proof',
         'rule 9 (data sizes) is checked for generated programs whose object types the generator knows; for other inputs only the IL-internal consistency is checked'])
 
@@ -734,6 +763,18 @@ HAND = [
     'struct s { int a : 3; int : 0; char c; short b : 9; } x = { 1, 2, 3 }; _Alignas(32) struct { char c; int b : 5; } y = { 1, 2 };\n',
 ]
 
+
+# known finding: a jump into the scope of a variable length array (constraint violation 6.8.6.1p1 / 6.8.4.2p2 that cproc does
+# not check) is accepted and the size temporary of the array is undefined on the path of the jump
+GOTO_VLA_KEY = 'goto-past-vla-declaration'
+GOTO_VLA_MARK = '/* jump into the scope of a VLA */'
+HAND += [GOTO_VLA_MARK + ' int f(int n){ goto L; { int a[n]; L: return sizeof a; } }\n',
+         GOTO_VLA_MARK + ' int f(int n){ switch (n) { int a[n]; case 1: return sizeof a; } return 0; }\n']
+
+# main gets an implicit `return 0` only when it returns int: other return types must not get a `ret 0`
+HAND += ['void main(void) { }\n', 'void main(int c, char **v) { while (c) { break; } }\n', 'long main(void) { long x = 1; x++; }\n',
+         'double main(void) { for (;;) { break; } }\n', 'struct s { long a, b, c; } main(void) { }\n', 'int main(void) { }\nvoid f(void) { }\n',
+         'static void main(void) { } void (*p)(void) = main;\n']
 
 # jumps to labels that are never defined (invalid programs): whatever the label's name hashes to, the unit is either
 # rejected or - if it is accepted - its IL must not jump to a missing block
